@@ -941,6 +941,8 @@ int safec_vsnprintf_s(out_fct_type out, const char *funcname, char *buffer,
             } else if (*format == '*') {
                 const int prec = (int)va_arg(va, int);
                 precision = prec > 0 ? (unsigned int)prec : 0U;
+                if (prec < 0) // a negative precision argument counts as omitted
+                    flags &= ~FLAGS_PRECISION;
                 format++;
             }
         }
